@@ -68,13 +68,13 @@ theorem readSlice_eq (n : Nat) (bs : Bytes) :
 theorem readSlice_append (bs r : Bytes) : readSlice bs.length (bs ++ r) = .ok (bs, r) := by
   simp [readSlice_eq]
 
-theorem readSlice_append' {n : Nat} {bs : Bytes} (h : bs.length = n) (r : Bytes) :
+theorem readSlice_append_len {n : Nat} {bs : Bytes} (h : bs.length = n) (r : Bytes) :
     readSlice n (bs ++ r) = .ok (bs, r) := by
   subst h; exact readSlice_append bs r
 
 theorem readUInt_leBytes {n v : Nat} (h : v < 256 ^ n) (r : Bytes) :
     readUInt n (leBytes n v ++ r) = .ok (v, r) := by
-  simp [readUInt, readSlice_append' (leBytes_length n v), ofLeBytes_leBytes_lt h]
+  simp [readUInt, readSlice_append_len (leBytes_length n v), ofLeBytes_leBytes_lt h]
 
 theorem readU8_cons (b : Nat) (r : Bytes) : readU8 (b :: r) = .ok (b, r) := rfl
 
